@@ -149,6 +149,21 @@ func (w *writer) Delete(rs *segment.RewriteSegment) (*writer, *reader, error) {
 		return nwrt, nil, nil
 	}
 
+	nextOffset, nextTime := w.index.getNext()
+	tailDeleted := rs.DeletedMessages[len(rs.DeletedMessages)-1].Offset == w.index.getLastOffset()
+
+	var nwrt *writer
+	if tailDeleted {
+		// the newest messages are deleted, writing continues in a new segment at the next offset.
+		// Create it before the rewritten segment is moved in: it carries the next offset,
+		// so at no point (e.g. a crash in between) the directory forgets about the deleted offsets
+		var err error
+		nwrt, err = openWriter(w.segment.NewAt(nextOffset), w.params, w.version, nextTime)
+		if err != nil {
+			return nil, nil, err
+		}
+	}
+
 	nseg := rs.GetNewSegment()
 	if nseg != w.segment {
 		// the starting offset of the new segment is different
@@ -159,32 +174,19 @@ func (w *writer) Delete(rs *segment.RewriteSegment) (*writer, *reader, error) {
 		if err := w.segment.Remove(); err != nil {
 			return nil, nil, err
 		}
-
-		// first move the replacement
-		nextOffset, nextTime := w.index.getNext()
-		if rs.DeletedMessages[len(rs.DeletedMessages)-1].Offset == w.index.getLastOffset() {
-			rdr := openReader(nseg, w.params, w.version, false)
-			wrt, err := openWriter(w.segment.NewAt(nextOffset), w.params, w.version, nextTime)
-			return wrt, rdr, err
-		} else {
-			wrt, err := openWriter(nseg, w.params, w.version, nextTime)
-			return wrt, nil, err
+	} else {
+		if err := rs.Override(w.segment); err != nil {
+			return nil, nil, err
 		}
 	}
 
-	if err := rs.Override(w.segment); err != nil {
-		return nil, nil, err
+	if tailDeleted {
+		rdr := openReader(nseg, w.params, w.version, false)
+		return nwrt, rdr, nil
 	}
 
-	nextOffset, nextTime := w.index.getNext()
-	if rs.DeletedMessages[len(rs.DeletedMessages)-1].Offset == w.index.getLastOffset() {
-		rdr := openReader(w.segment, w.params, w.version, false)
-		wrt, err := openWriter(w.segment.NewAt(nextOffset), w.params, w.version, nextTime)
-		return wrt, rdr, err
-	} else {
-		wrt, err := openWriter(w.segment, w.params, w.version, nextTime)
-		return wrt, nil, err
-	}
+	wrt, err := openWriter(nseg, w.params, w.version, nextTime)
+	return wrt, nil, err
 }
 
 func (w *writer) Sync() error {
